@@ -5,272 +5,47 @@ import (
 	"fmt"
 	"os"
 	"strings"
-	"sync"
 	"testing"
-	"time"
 
-	"github.com/IBM/TSS/msg"
-	tss "github.com/IBM/TSS/types"
+	"verif/checks/boxlib"
 	"verif/explore"
 	"verif/harness"
-	"verif/shim/sched"
-	"verif/world"
 )
 
-// step of a thread script
-type step struct {
-	Kind   string `json:"k"` // "R" receive, "S" send, "tick"
-	Topic  string `json:"t,omitempty"`
-	Sender uint16 `json:"s,omitempty"`
-	ID     string `json:"id,omitempty"` // message id for R
-}
-
-type scenario struct {
-	Name    string   `json:"name"`
-	Threads [][]step `json:"threads"`
-	Pre     []step   `json:"pre,omitempty"` // executed sequentially before the threads start
-	Bound   int      `json:"bound"`         // preemption bound
-}
-
-func topicBytes(t string) []byte {
-	b := make([]byte, 32)
-	copy(b, t)
-	return b
-}
-
-type handler struct {
-	mu  *sync.Mutex
-	log *[]string
-}
-
-func (h *handler) HandleMessage(m *tss.IncMessage) {
-	h.mu.Lock()
-	*h.log = append(*h.log, string(m.Data))
-	h.mu.Unlock()
-}
-
-type result struct {
-	handed   []string          // hand-over log (message ids)
-	calls    map[string][2]int // message id -> (call index, return index) in the harness' own order
-	trace    []string
-	deadlock bool
-	unfin    []string
-	pending  int // messages still buffered at the end (reflection), -1 unknown
-	subfail  bool
-}
-
-func run(c *harness.C, sc scenario, r *explore.Recorder) *result {
-	res := &result{calls: map[string][2]int{}, pending: -1}
-	var mu sync.Mutex
-	var handed []string
-	failedSub := false
-	rec := c.Bubble(func() {
-		tick := make(chan time.Time)
-		box := &msg.Box{Logger: world.NopLogger{}, MaxInFlightTopicsBySender: 10000, GCSweep: 20 * time.Second, GCExpire: 2 * time.Minute,
-			NewTicker:      func(time.Duration) *time.Ticker { return &time.Ticker{C: tick} },
-			ForwardSend:    func(uint8, []byte, []byte, ...tss.UniversalID) {},
-			MessageHandler: &handler{mu: &mu, log: &handed}}
-		var clk int
-		var cmu sync.Mutex
-		stamp := func() int { cmu.Lock(); defer cmu.Unlock(); clk++; return clk }
-		do := func(s step) {
-			switch s.Kind {
-			case "R":
-				a := stamp()
-				box.HandleMessage(&tss.IncMessage{Data: []byte(s.ID), Source: s.Sender, MsgType: uint8(tss.MsgTypeMPC), Topic: topicBytes(s.Topic)})
-				b := stamp()
-				cmu.Lock()
-				res.calls[s.ID] = [2]int{a, b}
-				cmu.Unlock()
-			case "S":
-				box.Send(uint8(tss.MsgTypeMPC), topicBytes(s.Topic), []byte("out"), 9)
-			}
-		}
-		// the clock goroutine exists only after first use: initialise the box with a harmless
-		// message type so that scenario "tick" steps have a receiver
-		for _, s := range sc.Pre {
-			if s.Kind == "tick" {
-				box.Send(uint8(tss.MsgTypeMPC), topicBytes("init"), []byte("init"), 9)
-				break
-			}
-		}
-		for _, s := range sc.Pre {
-			if s.Kind == "tick" {
-				tick <- time.Time{}
-				continue
-			}
-			do(s)
-		}
-		s := sched.New()
-		defer s.Close()
-		for i, th := range sc.Threads {
-			th := th
-			s.Go(fmt.Sprintf("T%d", i), func() {
-				for _, st := range th {
-					do(st)
-				}
-			})
-		}
-		s.Run(r)
-		res.deadlock = s.Deadlock
-		res.unfin = s.WaitAll()
-		res.trace = s.Trace
-		box.Stop()
-	})
-	_ = failedSub
-	if rec != nil && !harness.IsLeakPanic(rec) {
-		panic(rec)
-	}
-	mu.Lock()
-	res.handed = append([]string(nil), handed...)
-	mu.Unlock()
-	return res
-}
-
-type replay struct {
-	Scenario scenario `json:"scenario"`
-	Choices  []int    `json:"choices"`
-}
-
-// oracle: exactly-once and per-sender order. Returns an outcome class.
-func oracle(c *harness.C, sc scenario, res *result, rp replay) string {
-	return oracleCore(sc, res, rp, func(clause, sig, detail string) { c.Violation(clause, sig, detail, rp) })
-}
-
-func oracleCore(sc scenario, res *result, rp replay, report func(clause, sig, detail string)) string {
-	mode := "concurrent"
-	if len(sc.Threads) == 1 {
-		mode = "sequential"
-	}
-	bad := func(clause, sig, detail string) {
-		report(clause, sig+":"+mode, fmt.Sprintf("scenario %s schedule %v: %s", sc.Name, rp.Choices, detail))
-	}
-	if res.deadlock || len(res.unfin) > 0 {
-		bad("no-deadlock", "c14-deadlock", fmt.Sprintf("threads %v never finished", res.unfin))
-		return "deadlock"
-	}
-	cnt := map[string]int{}
-	pos := map[string]int{}
-	for i, id := range res.handed {
-		cnt[id]++
-		pos[id] = i
-	}
-	// which topics were started by the end
-	started := map[string]bool{}
-	for _, s := range sc.Pre {
-		if s.Kind == "S" {
-			started[s.Topic] = true
-		}
-	}
-	for _, th := range sc.Threads {
-		for _, s := range th {
-			if s.Kind == "S" {
-				started[s.Topic] = true
-			}
-		}
-	}
-	var recv []step
-	for _, s := range sc.Pre {
-		if s.Kind == "R" {
-			recv = append(recv, s)
-		}
-	}
-	for _, th := range sc.Threads {
-		for _, s := range th {
-			if s.Kind == "R" {
-				recv = append(recv, s)
-			}
-		}
-	}
-	outcome := "ok"
-	for _, s := range recv {
-		switch {
-		case cnt[s.ID] > 1:
-			bad("exactly-once", "c14-duplicated", fmt.Sprintf("message %s handed over %d times", s.ID, cnt[s.ID]))
-			outcome = "duplicated"
-		case cnt[s.ID] == 0 && started[s.Topic]:
-			// the topic has started, everything is quiescent, and the message was not handed over:
-			// it sits in the buffer until some later Send on the topic (if any) - or is lost
-			bad("exactly-once", "c14-not-handed-over-after-start", fmt.Sprintf("message %s for started topic %s was not handed over (parked until a next send, or lost)", s.ID, s.Topic))
-			outcome = "parked-or-lost"
-		}
-	}
-	// order: two messages of one sender and topic whose receive calls did not overlap
-	for _, a := range recv {
-		for _, b := range recv {
-			if a.ID == b.ID || a.Sender != b.Sender || a.Topic != b.Topic || cnt[a.ID] != 1 || cnt[b.ID] != 1 {
-				continue
-			}
-			ca, cb := res.calls[a.ID], res.calls[b.ID]
-			if ca[1] < cb[0] && pos[a.ID] > pos[b.ID] {
-				bad("arrival-order", "c14-reordered", fmt.Sprintf("message %s was received before %s (calls did not overlap) but handed over after it", a.ID, b.ID))
-				outcome = "reordered"
-			}
-		}
-	}
-	return outcome
-}
-
-func R(id, topic string, sender uint16) step { return step{Kind: "R", ID: id, Topic: topic, Sender: sender} }
-func S(topic string) step                    { return step{Kind: "S", Topic: topic} }
-
-func scenarios(thorough bool) []scenario {
-	b3 := 2
-	if thorough {
-		b3 = 3
-	}
-	return []scenario{
-		{Name: "1-R||S", Threads: [][]step{{R("m1", "X", 1)}, {S("X")}}, Bound: 100},
-		{Name: "2-RR||S", Threads: [][]step{{R("m1", "X", 1), R("m2", "X", 1)}, {S("X")}}, Bound: 100},
-		{Name: "3-R||R||S", Threads: [][]step{{R("m1", "X", 1)}, {R("m2", "X", 2)}, {S("X")}}, Bound: b3},
-		{Name: "4-R||S||Sother", Threads: [][]step{{R("m1", "X", 1)}, {S("X")}, {S("Y")}}, Bound: b3},
-		{Name: "5-R||SS", Threads: [][]step{{R("m1", "X", 1)}, {S("X"), S("X")}}, Bound: 100},
-		{Name: "6-RR2||S||S", Threads: [][]step{{R("m1", "X", 1), R("m2", "Y", 1)}, {S("X")}, {S("Y")}}, Bound: b3},
-		{Name: "7-tick-R||S||Sother", Pre: []step{{Kind: "tick"}}, Threads: [][]step{{R("m1", "X", 1)}, {S("X")}, {S("Y")}}, Bound: b3},
-		{Name: "s1-R;S", Threads: [][]step{{R("m1", "X", 1), S("X")}}, Bound: 0},
-		{Name: "s2-S;R", Threads: [][]step{{S("X"), R("m1", "X", 1)}}, Bound: 0},
-		{Name: "s3-R;R;S;R", Threads: [][]step{{R("m1", "X", 1), R("m2", "X", 1), S("X"), R("m3", "X", 1)}}, Bound: 0},
-		{Name: "s4-R;R2;Sother;S;S", Threads: [][]step{{R("m1", "X", 1), R("m2", "X", 2), S("Y"), S("X"), S("X")}}, Bound: 0},
-		{Name: "s5-tick-R;S", Pre: []step{{Kind: "tick"}}, Threads: [][]step{{R("m1", "X", 1), S("X")}}, Bound: 0},
-		{Name: "8-stored-R||S", Pre: []step{R("m0", "X", 1)}, Threads: [][]step{{R("m1", "X", 1)}, {S("X")}}, Bound: 100},
-		{Name: "9-stored-RR||S", Pre: []step{R("m0", "X", 1)}, Threads: [][]step{{R("m1", "X", 1), R("m2", "X", 1)}, {S("X")}}, Bound: 100},
-	}
-}
-
-func scCase(sc scenario, pos, alt int, isRoot bool) harness.Case {
+func scCase(sc boxlib.Scenario, pos, alt int, isRoot bool) harness.Case {
 	id := sc.Name + "/root"
 	if !isRoot {
 		id = fmt.Sprintf("%s/task/%d:%d", sc.Name, pos, alt)
 	}
 	return harness.Case{ID: id, Run: func(c *harness.C) {
 		if c.Replay != nil {
-			var rp replay
+			var rp boxlib.Replay
 			if json.Unmarshal(c.Replay, &rp) == nil {
 				r := &explore.Recorder{Prefix: rp.Choices}
-				res := run(c, rp.Scenario, r)
-				oracle(c, rp.Scenario, res, rp)
+				res := boxlib.Run(c, rp.Scenario, r)
+				boxlib.Oracle(c, rp.Scenario, res, rp)
 			}
 			return
 		}
-		var last *result
+		var last *boxlib.Result
 		e := &explore.Explorer{Stop: c.Expired}
 		e.Run = func(r *explore.Recorder) {
 			c.Exec(fmt.Sprintf("[c14] %s %v", sc.Name, r.Prefix))
-			last = run(c, sc, r)
+			last = boxlib.Run(c, sc, r)
 		}
 		reported := map[string]bool{}
 		e.Visit = func(r *explore.Recorder) {
 			c.Add("executions", 1)
-			c.Add("transitions", len(last.trace))
-			rp := replay{Scenario: sc, Choices: explore.Trim(r.Choices())}
+			c.Add("transitions", len(last.Trace))
+			rp := boxlib.Replay{Scenario: sc, Choices: explore.Trim(r.Choices())}
 			// report each signature once per case (the first, i.e. the least-deviating schedule)
 			oc := oracleOnce(c, sc, last, rp, reported)
 			c.Add("outcome:"+oc, 1)
-			if c.Outcome(sc.Name + "|" + oc + "|" + strings.Join(last.handed, ",")) {
-				c.Sample("c14", map[string]interface{}{"scenario": sc.Name, "choices": rp.Choices, "outcome": oc, "handed": last.handed, "schedule": last.trace})
+			if c.Outcome(sc.Name + "|" + oc + "|" + strings.Join(last.Handed, ",")) {
+				c.Sample("c14", map[string]interface{}{"scenario": sc.Name, "choices": rp.Choices, "outcome": oc, "handed": last.Handed, "schedule": last.Trace})
 			}
-			for i := range last.trace {
-				c.State(sc.Name + "|" + strings.Join(last.trace[:i+1], ";"))
+			for i := range last.Trace {
+				c.State(sc.Name + "|" + strings.Join(last.Trace[:i+1], ";"))
 			}
 		}
 		if isRoot {
@@ -278,7 +53,7 @@ func scCase(sc scenario, pos, alt int, isRoot bool) harness.Case {
 			return
 		}
 		root := &explore.Recorder{}
-		run(c, sc, root)
+		boxlib.Run(c, sc, root)
 		cost := 1
 		if root.Points[pos].Free {
 			cost = 0
@@ -292,8 +67,8 @@ func scCase(sc scenario, pos, alt int, isRoot bool) harness.Case {
 }
 
 // oracleOnce suppresses repeated reports of the same signature within a case.
-func oracleOnce(c *harness.C, sc scenario, res *result, rp replay, reported map[string]bool) string {
-	return oracleCore(sc, res, rp, func(clause, sig, detail string) {
+func oracleOnce(c *harness.C, sc boxlib.Scenario, res *boxlib.Result, rp boxlib.Replay, reported map[string]bool) string {
+	return boxlib.OracleCore(sc, res, rp, func(clause, sig, detail string) {
 		c.Add("violating_schedules:"+sig, 1)
 		if !reported[sig] {
 			reported[sig] = true
@@ -308,10 +83,10 @@ func gen(c *harness.C) []harness.Case {
 		c.Note("c14-overlay", "shim overlay not active: scheduling points missing, exploration is vacuous")
 	}
 	var cases []harness.Case
-	for _, sc := range scenarios(c.Thorough()) {
+	for _, sc := range boxlib.Scenarios(c.Thorough()) {
 		cases = append(cases, scCase(sc, 0, 0, true))
 		root := &explore.Recorder{}
-		run(c, sc, root)
+		boxlib.Run(c, sc, root)
 		for _, t := range explore.RootTasks(root) {
 			cases = append(cases, scCase(sc, t[0], t[1], false))
 		}
